@@ -56,6 +56,9 @@ pub struct RxPolicy {
     pub ignore_reg1: u32,
     /// one-shot: forget the group (Some(true): answer REG_ERR afterwards, Some(false): REG_NGP)
     pub forget: Option<bool>,
+    /// every data packet arriving on these addresses is reported lost (a NAK goes back on the same link): the
+    /// sender walks the link's window down, the link stays connected and heard but gets a low share
+    pub nak_links: std::collections::BTreeSet<u8>,
 }
 
 pub struct E2e {
@@ -207,6 +210,14 @@ impl E2e {
                             };
                             if skip {
                                 continue;
+                            }
+                            if let Some(sq) = rc::srt_seq(b)
+                                && b.len() >= 16
+                                && policy.lock().unwrap().nak_links.contains(&a)
+                            {
+                                let mut nak = vec![0x80u8, 0x03, 0, 0];
+                                nak.extend_from_slice(&sq.to_be_bytes());
+                                let _ = sock.send_to(&nak, src);
                             }
                             for r in rx.on_datagram(a, b, now) {
                                 if r.len() == 258 && r[0] == 0x92 && r[1] == 0x01 {
